@@ -119,6 +119,20 @@ impl LeafH {
             };
             if let Some(t) = t {
                 own(|| dev.calls.last_mut().unwrap().got.push(tok_json(&t)));
+                // parameter conversion is part of the allocation-free claim (C11): results are irrelevant here
+                lib(|| {
+                    let _ = u8::try_from(t);
+                    let _ = i64::try_from(t);
+                    let _ = f32::try_from(t);
+                    let _ = f64::try_from(t);
+                    let _ = bool::try_from(t);
+                    let _ = <&[u8]>::try_from(t);
+                    let _ = <&str>::try_from(t);
+                    let _ = Arbitrary::try_from(t);
+                    let _ = scpi::units::ElectricPotential::try_from(t);
+                    let _ = scpi::parser::expression::numeric_list::NumericList::try_from(t).map(|l| l.count());
+                    let _ = scpi::parser::expression::channel_list::ChannelList::try_from(t).map(|l| l.count());
+                });
             }
         }
         let failing = script.res.0 != 0;
@@ -129,7 +143,7 @@ impl LeafH {
                         r.header(&script.hdr);
                     }
                     for it in &script.items {
-                        r.data(Character(it));
+                        write_item(&mut r, it);
                     }
                 });
             }
@@ -143,6 +157,58 @@ impl LeafH {
             Ok(())
         }
     }
+}
+
+/// How to write one response datum. The script gives the expected text; where a typed value formats to
+/// exactly that text the typed formatter is used (integers, floats, quoted strings, blocks), so that
+/// number/string/block formatting runs under the allocation counter and capacity faults.
+enum Plan {
+    Int(i64),
+    Float(f64),
+    Str(usize, usize),
+    Block(usize),
+    Raw,
+}
+
+fn plan_item(it: &[u8]) -> Plan {
+    let s = std::str::from_utf8(it).unwrap_or("");
+    if let Ok(v) = s.parse::<i64>() {
+        if format!("{v}").as_bytes() == it {
+            return Plan::Int(v);
+        }
+    }
+    if s.contains('.') {
+        if let Ok(v) = s.parse::<f64>() {
+            let mut probe: Vec<u8> = Vec::new();
+            if v.format_response_data(&mut probe).is_ok() && probe == it {
+                return Plan::Float(v);
+            }
+        }
+    }
+    if it.len() >= 2 && it[0] == b'"' && it[it.len() - 1] == b'"' && !it[1..it.len() - 1].contains(&b'"') {
+        return Plan::Str(1, it.len() - 1);
+    }
+    if it.len() >= 3 && it[0] == b'#' && (b'1'..=b'9').contains(&it[1]) {
+        let n = (it[1] - b'0') as usize;
+        if it.len() >= 2 + n {
+            if let Ok(len) = std::str::from_utf8(&it[2..2 + n]).unwrap_or("x").parse::<usize>() {
+                if it.len() == 2 + n + len && format!("{len}").len() == n {
+                    return Plan::Block(2 + n);
+                }
+            }
+        }
+    }
+    Plan::Raw
+}
+
+fn write_item(r: &mut ResponseUnit, it: &[u8]) {
+    match own(|| plan_item(it)) {
+        Plan::Int(v) => r.data(v),
+        Plan::Float(v) => r.data(v),
+        Plan::Str(a, b) => r.data(&it[a..b]),
+        Plan::Block(a) => r.data(Arbitrary(&it[a..])),
+        Plan::Raw => r.data(Character(it)),
+    };
 }
 
 impl Command<XDev> for LeafH {
